@@ -28,6 +28,7 @@ Cn   == INSTANCE ErgoConc WITH Dev <- {}
 Tx   == INSTANCE ErgoText
 FS   == INSTANCE ErgoFS WITH Dev <- {}
 HL   == INSTANCE ErgoList WITH Dev <- {}
+LN   == INSTANCE ErgoLines
 
 Raw == ndJsonDeserialize(ObsFile)
 
@@ -121,6 +122,7 @@ ClauseNames ==
     "C03_readable", "C03_only_own_missing", "C03_continues", "C04_all_or_nothing",
     "C18_where", "C18_same_store", "C18_lands", "C18_reads_work", "C18_lock", "C18_init",
     "C19_all_once", "C19_active_once", "C19_ready_exact", "C19_known_rows", "C19_tree", "C19_summary", "C19_empty", "C19_fits", "C19_idcol", "C19_utf8",
+    "C12_file_total", "C12_file_names_line", "C12_file_shows", "C12_file_deterministic", "C12_file_pure",
     "C17_roundtrip", "C17_stays", "C17_accepted",
     "R_step", "R_reply", "R_time", "R_preview", "R_faillog" }
 
@@ -213,6 +215,11 @@ Eval(n, o) ==
     [] n = "C19_fits" -> HL!C19_fits(NormHL(o.hl))
     [] n = "C19_idcol" -> HL!C19_idcol(NormHL(o.hl))
     [] n = "C19_utf8" -> HL!C19_utf8(NormHL(o.hl))
+    [] n = "C12_file_total" -> LN!C12_file_total(o.lines)
+    [] n = "C12_file_names_line" -> LN!C12_file_names_line(o.lines)
+    [] n = "C12_file_shows" -> LN!C12_file_shows(o.lines)
+    [] n = "C12_file_deterministic" -> LN!C12_file_deterministic(o.lines)
+    [] n = "C12_file_pure" -> LN!C12_file_pure(o.lines)
     [] n = "C17_roundtrip" -> Tx!C17_roundtrip(o.text)
     [] n = "C17_stays" -> Tx!C17_stays(o.text)
     [] n = "C17_accepted" -> Tx!C17_accepted(o.text)
@@ -235,7 +242,7 @@ ConcNames == {"C01_serial", "C01_no_double", "C01_outcomes", "C01_winner_holds",
               "C06_final",
               "C15_final",
               "C03_readable", "C03_only_own_missing", "C03_continues", "C04_all_or_nothing"}
-TextNames == {"C19_all_once", "C19_active_once", "C19_ready_exact", "C19_known_rows", "C19_tree", "C19_summary", "C19_empty", "C19_fits", "C19_idcol", "C19_utf8", "C17_roundtrip", "C17_stays", "C17_accepted", "C18_where", "C18_same_store", "C18_lands", "C18_reads_work", "C18_lock", "C18_init"}
+TextNames == {"C12_file_total", "C12_file_names_line", "C12_file_shows", "C12_file_deterministic", "C12_file_pure", "C19_all_once", "C19_active_once", "C19_ready_exact", "C19_known_rows", "C19_tree", "C19_summary", "C19_empty", "C19_fits", "C19_idcol", "C19_utf8", "C17_roundtrip", "C17_stays", "C17_accepted", "C18_where", "C18_same_store", "C18_lands", "C18_reads_work", "C18_lock", "C18_init"}
 Wanted(r) == IF "only" \in DOMAIN r THEN ToSet(r.only) \cap ClauseNames ELSE ClauseNames \ (ConcNames \cup TextNames)
 
 Init == i = 0 /\ bad = {}
